@@ -5,6 +5,7 @@
 From Grex Require Import Base.Str Model.Config Model.Cluster Model.Dfa Model.Expr Model.Pipeline.
 From Grex Require Import Proofs.Lang Proofs.Spec Proofs.RepInv Proofs.Construction
   Proofs.PropsGlue.
+From Grex Require Proofs.MergeLang.
 
 (* on one cluster: same language, and expanding the repetitions gives the cluster back *)
 Theorem C05_clusters : forall (lit cls : cp -> cp -> Prop) c cl,
@@ -50,8 +51,54 @@ Theorem C05_K1_witness :
               (normalise Sanity.c_rep [] [[97; 97; 97]%N; [97; 97; 97; 97]%N])) = false.
 Proof. exact Sanity.merge_happens. Qed.
 
+(* REPETITION CONVERSION NEVER LOSES A STRING.  c and c' have the same class options and the
+   same (?i) setting and c' does not convert repetitions (in particular: c' is c with
+   f_rep := false).  No no_merge: every string of the expression built WITHOUT repetition
+   conversion is in the language of the expression built WITH it, for any two self-check
+   outcomes (without repetitions the language is the specification, the specification does
+   not read f_rep, and with repetitions every specification string is accepted even when trie
+   edges are merged).  The converse inclusion is K1: C05_never_loses_example *)
+Theorem C05_never_loses : forall (lit cls : cp -> cp -> Prop) c c' db sc sc' ws e e',
+  f_digit c = f_digit c' /\ f_non_digit c = f_non_digit c' /\
+  f_space c = f_space c' /\ f_non_space c = f_non_space c' /\
+  f_word c = f_word c' /\ f_non_word c = f_non_word c' /\
+  f_ci c = f_ci c' ->
+  f_rep c' = false ->
+  ws <> [] ->
+  oracle_ok db (normalise c db ws) ->
+  Pipeline.final_expr c (grapheme_clusters c db (normalise c db ws)) sc = Some e ->
+  Pipeline.final_expr c' (grapheme_clusters c' db (normalise c' db ws)) sc' = Some e' ->
+  forall u, (u <> [] \/ K4 (normalise c db ws) = false) ->
+    L_expr lit cls e' u -> L_expr lit cls e u.
+Proof. exact MergeLang.never_loses. Qed.
+
+(* non-vacuity on a merging input, and the converse fails there: "abc" "abbd"; with
+   repetition conversion ab{1,2}[cd], without ab(?:bd|c); the former accepts "abd", the
+   latter does not *)
+Example C05_never_loses_example :
+  no_merge (grapheme_clusters MergeLang.Sanity.c_rep []
+              (normalise MergeLang.Sanity.c_rep [] MergeLang.Sanity.ws1)) = false
+  /\ (forall sc, Pipeline.final_expr MergeLang.Sanity.c_rep
+                   (grapheme_clusters MergeLang.Sanity.c_rep []
+                      (normalise MergeLang.Sanity.c_rep [] MergeLang.Sanity.ws1)) sc
+                 = Some MergeLang.Sanity.e1)
+  /\ (forall sc, Pipeline.final_expr MergeLang.Sanity.c_norep
+                   (grapheme_clusters MergeLang.Sanity.c_norep []
+                      (normalise MergeLang.Sanity.c_norep [] MergeLang.Sanity.ws1)) sc
+                 = Some MergeLang.Sanity.e1')
+  /\ (forall u, L_expr eq eq MergeLang.Sanity.e1' u -> L_expr eq eq MergeLang.Sanity.e1 u)
+  /\ L_expr eq eq MergeLang.Sanity.e1 [97; 98; 100]%N
+  /\ ~ L_expr eq eq MergeLang.Sanity.e1' [97; 98; 100]%N.
+Proof.
+  exact (conj MergeLang.Sanity.k1_merge (conj MergeLang.Sanity.k1_expr
+          (conj MergeLang.Sanity.k1_expr_norep (conj MergeLang.Sanity.k1_never_loses
+            (conj MergeLang.Sanity.k1_over MergeLang.Sanity.k1_norep_rejects))))).
+Qed.
+
 Print Assumptions C05_clusters.
 Print Assumptions C05_spec_indep.
 Print Assumptions C05_notation.
 Print Assumptions C05_no_merge_without_rep.
 Print Assumptions C05_K1_witness.
+Print Assumptions C05_never_loses.
+Print Assumptions C05_never_loses_example.
